@@ -9,6 +9,7 @@ pub mod c15;
 pub mod c16;
 pub mod c17;
 pub mod c18;
+pub mod c19;
 pub mod c20;
 
 pub fn run(id: &str, eng: &mut Engine) -> bool {
@@ -23,6 +24,7 @@ pub fn run(id: &str, eng: &mut Engine) -> bool {
         "C16" => c16::run(eng),
         "C17" => c17::run(eng),
         "C18" => c18::run(eng),
+        "C19" => c19::run(eng),
         "C20" => c20::run(eng),
         _ => return false,
     }
